@@ -32,6 +32,7 @@ its rows are compared with the rows of the real plain run).
 -/
 import TrustfallModel.Proofs.HintsSound
 import TrustfallModel.Proofs.HintsPrune
+import TrustfallModel.Proofs.FrontendBridgeHints
 
 namespace TF.C04
 open TF TF.Engine Filter Candidate
@@ -294,6 +295,72 @@ example : PruneHyp nvIR nvArgs nvData ∧
 
 end TF.C04
 
+/-! ### compiled queries
+
+The three structural clauses of `PruneHyp` (distinct Vids, distinct Eids, a fold enters the root of
+its component) hold for every query the (modelled) frontend accepts (clauses 2 and 4 of C11); what
+remains of the guard concerns the arguments and the dataset only. -/
+namespace TF.C04.Compiled
+open TF TF.Engine TF.Frontend
+
+/-- The guard of `prune_static_invariant_partial` for a compiled query: only the clauses about the
+arguments (`HintsTotal`: the hint computation does not panic) and about the dataset (non-nullable
+properties are not null on the vertices the adapter returns) remain. -/
+theorem pruneHyp_compiled {S : SchemaView} {q : Spec.Query} {ir : IRQuery} (h : toIR S q = .ok ir)
+    {D : Data} {args : List (Name × Value)} (total : HintsTotal ir args D)
+    (nnStart : ∀ v, ir.rootComponent.vertex? ir.rootComponent.root = some v →
+      ∀ x ∈ D.start ir.rootName ir.rootParams, NonNullOk D v x)
+    (nnEdge : ∀ c ∈ subComps ir.rootComponent, ∀ e ∈ c.edges, ∀ v, c.vertex? e.toVid = some v →
+      ∀ y, ∀ x ∈ D.nbrs y e.name e.params, NonNullOk D v x)
+    (nnFold : ∀ c ∈ subComps ir.rootComponent, ∀ f ∈ c.folds, ∀ v,
+      f.component.vertex? f.component.root = some v →
+      ∀ y, ∀ x ∈ D.nbrs y f.name f.params, NonNullOk D v x) :
+    PruneHyp ir args D :=
+  ⟨toIR_VidsDistinct h, toIR_EidsDistinct h, toIR_foldRoots h, total, nnStart, nnEdge, nnFold⟩
+
+/-- **Pruning with the static hints never changes the rows — for every query accepted by the
+frontend.** -/
+theorem prune_static_invariant_compiled {S : SchemaView} {q : Spec.Query} {ir : IRQuery}
+    (h : toIR S q = .ok ir) (D : Data) (args : List (Name × Value)) (rows : List Row)
+    (total : HintsTotal ir args D)
+    (nnStart : ∀ v, ir.rootComponent.vertex? ir.rootComponent.root = some v →
+      ∀ x ∈ D.start ir.rootName ir.rootParams, NonNullOk D v x)
+    (nnEdge : ∀ c ∈ subComps ir.rootComponent, ∀ e ∈ c.edges, ∀ v, c.vertex? e.toVid = some v →
+      ∀ y, ∀ x ∈ D.nbrs y e.name e.params, NonNullOk D v x)
+    (nnFold : ∀ c ∈ subComps ir.rootComponent, ∀ f ∈ c.folds, ∀ v,
+      f.component.vertex? f.component.root = some v →
+      ∀ y, ∀ x ∈ D.nbrs y f.name f.params, NonNullOk D v x)
+    (hrun : interpret (Env.ofData D args) ir = .ok rows) :
+    interpret { Env.ofData D args with adapter := pruneStaticAdapter ir args D } ir = .ok rows :=
+  prune_static_invariant_partial ir D args rows (pruneHyp_compiled h total nnStart nnEdge nnFold) hrun
+
+/-- one type `T` with a property `s : String` and an edge `e : [T]`; root `R : [T]` -/
+def exSchema : SchemaView :=
+  ⟨[⟨"T", false, [], [("s", ⟨"String", [true]⟩)], [⟨"e", "T", ⟨"T", [true, true]⟩, []⟩]⟩],
+   [⟨"R", "T", ⟨"T", [true, true]⟩, []⟩]⟩
+
+/-- `{ R { s @filter(op: "=", value: ["$v"]) @output(name: "o")
+          e @fold { s @output(name: "p") } } }` -/
+def exQuery : Spec.Query :=
+  ⟨"R", [], .mk none [
+    .prop "s" [.filter (.bin .equals) (.var "v"), .output "o"],
+    .edge "e" [] (.fold []) (.mk none [.prop "s" [.output "p"]])]⟩
+
+def accepted : M IRQuery → Bool
+  | .ok _ => true
+  | .error _ => false
+
+/-- Non-vacuity: the frontend accepts the example query, and its IR satisfies the three structural
+clauses of the guard. -/
+example : ∃ ir, toIR exSchema exQuery = .ok ir ∧ VidsDistinct ir ∧ EidsDistinct ir ∧
+    ∀ c ∈ subComps ir.rootComponent, ∀ f ∈ c.folds, f.toVid = f.component.root := by
+  have hacc : accepted (toIR exSchema exQuery) = true := by decide +kernel
+  cases h : toIR exSchema exQuery with
+  | ok ir => exact ⟨ir, rfl, toIR_VidsDistinct h, toIR_EidsDistinct h, toIR_foldRoots h⟩
+  | error e => rw [h] at hacc; simp [accepted] at hacc
+
+end TF.C04.Compiled
+
 #print axioms TF.C04.static_candidate_sound
 #print axioms TF.C04.static_candidates_sound
 #print axioms TF.C04.statically_required_sound
@@ -315,3 +382,5 @@ end TF.C04
 #print axioms TF.C04.lookahead_witness_repaired
 #print axioms TF.C04.prune_static_invariant_partial
 #print axioms TF.C04.rejected_vertex_never_survives
+#print axioms TF.C04.Compiled.pruneHyp_compiled
+#print axioms TF.C04.Compiled.prune_static_invariant_compiled
